@@ -71,7 +71,7 @@ InitHG(genesis, me) ==
       lastBlock |-> -1,
       frames  |-> EmptyFun,
       lce     |-> Strict([ c \in Creators |-> NoEv ]),    \* last consensus event per creator
-      sigpool |-> {},
+      sigpool |-> EmptyFun,                     \* SigPool: << block index, signer >> -> quality (keyed like the code's map)
       anchor  |-> -1,
       loaded  |-> 0,                              \* PendingLoadedEvents
       topo    |-> 0,
@@ -179,6 +179,13 @@ RoundDecided(Ri, n) == Ri.dec \/ RoundDecidedNow(Ri, n)
 -----------------------------------------------------------------------------
 (* InsertEvent (after admission)                                           *)
 
+\* SigPool.Add: keyed by (block index, validator); a later signature with the
+\* same key replaces the earlier one
+RECURSIVE AddSigs(_, _, _, _)
+AddSigs(pool, c, sigs, k) ==
+    IF k > Len(sigs) THEN pool
+    ELSE AddSigs(Ext(pool, << sigs[k].blk, c >>, sigs[k].q), c, sigs, k + 1)
+
 InsertEvent(D, h, e) ==
     LET c  == D[e].c
         rec == [ la |-> InitLA(D, h, e), fd |-> InitFD(D, e),
@@ -192,8 +199,7 @@ InsertEvent(D, h, e) ==
                    !.undet = Append(@, e),
                    !.topo = @ + 1,
                    !.loaded = IF IsLoaded(D, e) THEN @ + 1 ELSE @,
-                   !.sigpool = @ \cup { [ blk |-> D[e].sigs[k].blk, by |-> c, q |-> D[e].sigs[k].q ]
-                                        : k \in DOMAIN D[e].sigs } ]
+                   !.sigpool = AddSigs(@, c, D[e].sigs, 1) ]
 
 -----------------------------------------------------------------------------
 (* DivideRounds for one undivided event                                    *)
@@ -476,28 +482,29 @@ InsertAllAndRun(D, h, es) ==
 (* q = "good": verifies against the receiving node's body of that block,   *)
 (* "bad": does not verify, "mal": malformed encoding (the pass aborts).    *)
 
-SigReady(h, s) ==
-    /\ s.blk \in DOMAIN h.blocks
-    /\ s.by \in Members(h, h.blocks[s.blk].rr)
+\* key = << block index, signer >>
+SigReady(h, key) ==
+    /\ key[1] \in DOMAIN h.blocks
+    /\ key[2] \in Members(h, h.blocks[key[1]].rr)
 
 RECURSIVE SigFold(_, _)
-SigFold(h, ss) ==
-    IF ss = {} THEN h
-    ELSE LET s == CHOOSE x \in ss : TRUE IN
-         IF ~(SigReady(h, s) /\ s.q = "good") THEN SigFold(h, ss \ {s})
-         ELSE LET b1 == [ h.blocks[s.blk] EXCEPT !.sigs = @ \cup { s.by } ]
+SigFold(h, ks) ==
+    IF ks = {} THEN h
+    ELSE LET key == CHOOSE x \in ks : TRUE IN
+         IF ~(SigReady(h, key) /\ h.sigpool[key] = "good") THEN SigFold(h, ks \ {key})
+         ELSE LET b1 == [ h.blocks[key[1]] EXCEPT !.sigs = @ \cup { key[2] } ]
                   n  == Cardinality(Members(h, b1.rr))
                   a1 == IF Cardinality(b1.sigs) > TrustCount(n) /\ (h.anchor = -1 \/ b1.idx > h.anchor)
                         THEN b1.idx ELSE h.anchor
-              IN  SigFold([ h EXCEPT !.blocks[s.blk] = b1, !.anchor = a1,
-                                      !.sigpool = @ \ { s } ], ss \ {s})
+              IN  SigFold([ h EXCEPT !.blocks[key[1]] = b1, !.anchor = a1,
+                                      !.sigpool = Without(@, key) ], ks \ {key})
 
 \* A malformed signature whose block and signer are known aborts the pass at
 \* an unspecified position (map order); the spec takes the "nothing processed
 \* after it" reading only as an allowed outcome - see Trace.tla.
-SigPoolBlocked(h) == \E s \in h.sigpool : SigReady(h, s) /\ s.q = "mal"
+SigPoolBlocked(h) == \E key \in DOMAIN h.sigpool : SigReady(h, key) /\ h.sigpool[key] = "mal"
 
-ProcessSigPool(h) == SigFold(h, h.sigpool)
+ProcessSigPool(h) == SigFold(h, DOMAIN h.sigpool)
 
 -----------------------------------------------------------------------------
 (* Reset from a frame (fast-sync) and InsertFrameEvent                     *)
